@@ -185,16 +185,85 @@ def _check_scripted_solve(case, res, m, endo, check, init, n, opts, ref, b, a, s
     return res
 
 
+def apply_history(case, res, m, ref, t, T, n, endo, check, init, opts, script, b, a, desc):
+    """What happened to the object (and to the process) before the measured call. Every step is either without effect
+    on the expected outcome or mirrored on the reference state:
+        'rebind'         every series re-assigned as a list of its own values (new array objects, same contents)
+        'copy'           the object replaced by its copy()
+        'warm-same'      the same period solved once before (mirrored), then the values put back by whole-series assignment
+        'warm-other'     another period solved first with the same options (mirrored)
+        'sibling-first'  another instance, whose span has the same labels at other positions, solved first
+    """
+    names = [nm for nm in endo + ['X'] if nm in ref['values']]
+
+    def mirror(tt):
+        return refsolver.solve_t(ref, tt, n, check=check, endogenous=endo,
+                                 evaluate=scripted.ref_evaluate_cb(script), before=b, after=a, **opts)
+
+    def forget_logs(obj):
+        for key in ('_log', '_vals'):
+            if key in obj.__dict__:
+                del obj.__dict__[key][:]
+
+    for h in case.get('history') or []:
+        res.tag('history:' + h)
+        if h == 'rebind':
+            for nm in names:
+                setattr(m, nm, np.asarray(m[nm]).tolist())
+        elif h == 'copy':
+            m = m.copy()
+        elif h == 'warm-same' and case.get('entry') != 'solve':
+            attempt(m.solve_t, t, **opts)
+            mirror(t)
+            for nm in names:
+                setattr(m, nm, [float(v) for v in init[nm]])
+                ref['values'][nm] = np.array(init[nm], dtype=float)
+            forget_logs(m)
+        elif h == 'warm-other' and n >= 2 and case.get('entry') != 'solve':
+            t2 = (T + 1) % n
+            attempt(m.solve_t, t2, **opts)
+            mirror(t2)
+            forget_logs(m)
+        elif h == 'sibling-first' and n >= 2 and desc.get('k') == 'range':
+            sib_desc = dict(desc, start=desc['start'] - 1)
+            sib, *_ = build(dict(case, span=sib_desc, mixed=None, init={}))
+            for label in spans.labels(sib_desc):
+                attempt(sib.solve_period, label, max_iter=1, failures='ignore', errors='ignore')
+            attempt(sib.solve, max_iter=1, failures='ignore', errors='ignore')
+    return m
+
+
+HISTORIES = [[], [], [], ['rebind'], ['copy'], ['warm-same'], ['warm-other'], ['sibling-first'], ['warm-same', 'rebind'],
+             ['copy', 'warm-other'], ['sibling-first', 'warm-same']]
+
+
+def with_history(gen):
+    """Wrap an enumerating generator: every fourth case gets a history (cycled)."""
+    def wrapped():
+        import zlib
+        for i, case in enumerate(gen()):
+            # (a deterministic scramble rather than a stride, so that histories are not correlated with the other cycled options)
+            z = zlib.crc32(b'history%d' % i)
+            if z % 4 == 0 and 'history' not in case:
+                case = dict(case, history=HISTORIES[3 + (z >> 8) % (len(HISTORIES) - 3)])
+            if (z >> 16) % 3 == 0 and 'span' not in case and not case.get('mixed'):
+                # the same labels at other positions than in the neighbouring cases (integer spans with another origin)
+                case = dict(case, span={'k': 'range', 'start': [1, -1, 2, 7][(z >> 20) % 4], 'n': case.get('n', 3), 'step': 1})
+            yield case
+    return wrapped
+
+
 def check_scripted(case):
     opts = dict(case['opts'])
     m, endo, check, init, n, desc = build(case)
     t = case['t']
     T = t + n if t < 0 else t
     res = Result(classes=['scripted', 'entry:' + case.get('entry', 'solve_t')])
-    before_snap = snapshot.snapshot(m)
     script = case.get('script') or {}
     ref = ref_state(init, n)
     b, a = scripted.ref_hooks(case.get('hooks'))
+    m = apply_history(case, res, m, ref, t, T, n, endo, check, init, opts, script, b, a, desc)
+    before_snap = snapshot.snapshot(m)
     if case.get('entry') == 'solve':
         return _check_scripted_solve(case, res, m, endo, check, init, n, opts, ref, b, a, script)
     rep = Rep(case.get('rep'))
